@@ -999,3 +999,108 @@ contract(WMS + 'FilteredRootLayer.queryable', props=['C10'],
          opaque_fields={'name': 'opaque', 'queryable': 'opaque'}, stable_fields=['name', 'queryable'],
          opaque_spec={'get': {'pure': True}},
          trace=[_filtered_queryable])
+
+
+# ======================================================================================================================
+# tile service capabilities: only permitted layers are advertised (TMS, WMTS)
+# ======================================================================================================================
+def _tile_caps_decision(svc):
+    def clause(ex, st, post, result):
+        import z3
+        from pyvc.values import VStr
+        cb = [e for e in st.trace if e.kwargs and 'environ' in e.kwargs and 'query_extent' in e.kwargs]
+        ins = [e for i, e in T.evs(st, 'contains') if len(e.args) == 2 and isinstance(e.args[1], VStr) and e.args[1].conc() == 'mapproxy.authorize']
+        if not cb:
+            yield ('all_layers_without_asking_only_if_not_configured',
+                   z3.And(z3.BoolVal(len(ins) == 1), *[z3.Not(ex.truth(st, e.result)) for e in ins]),
+                   "every layer is advertised without asking only when no 'mapproxy.authorize' callback is configured")
+            return
+        c = cb[-1]
+        a0 = c.args[0] if c.args else None
+        yield ('callback_asked_about_the_service', z3.BoolVal(isinstance(a0, VStr) and a0.conc() == svc and c.kwargs['environ'] is post.env['env']),
+               "the callback is asked about '%s' with the request environment" % svc)
+        from pyvc.values import opaque_eq_str as _oes
+        ep_ = getattr(c, 'pre_epoch', 0) + 1
+        f_ = z3.Function('opaque_item_%s_%d' % (abs(hash(('s', 'authorized'))), ep_), c.result.t.sort(), c.result.t.sort())
+        auth = f_(c.result.t)
+        yield ('unauthenticated_or_none_never_served',
+               z3.And(z3.Not(_oes(auth, z3.StringVal('unauthenticated'))),
+                      z3.Or(_oes(auth, z3.StringVal('full')), z3.Not(_oes(auth, z3.StringVal('none'))))),
+               "no capabilities document after 'unauthenticated' (401) or 'none' (403)")
+    return clause
+
+
+def _tile_caps_layer(ex, st, k):
+    """a layer enters the advertised collection only with its own 'tile' permission (a missing entry counts as not permitted)"""
+    import z3
+    from pyvc.values import VStr
+    evs_ = st.trace[getattr(st, 'iter_start_trace', 0):]
+    layer = st.env['layer']
+    added = [e for e in evs_ if e.name in ('setitem', 'append')]
+    name = ex.opaque_field(st.iter_start_state, layer, 'name')
+    outer = [e for e in evs_ if e.name == 'get' and e.args and hasattr(e.args[0], 't') and e.args[0].t.eq(name.t)]
+    inner = [e for e in evs_ if e.name == 'get' and e.args and isinstance(e.args[0], VStr) and e.args[0].conc() == 'tile'
+             and outer and e.recv is not None and e.recv.t.eq(outer[0].result.t)]
+    g = z3.BoolVal(len(added) <= 1 and len(outer) == 1 and len(inner) == 1)
+    if len(inner) == 1:
+        from pyvc.values import opaque_is_true
+        # (TMS tests `is True`, WMTS truthiness: either way the permission must be there)
+        perm = z3.Or(ex.truth(st, inner[0].result), opaque_is_true(inner[0].result.t))
+        dflt_false = z3.Not(ex.truth(st, inner[0].args[1])) if len(inner[0].args) == 2 else z3.BoolVal(False)
+        g = z3.And(g, dflt_false, z3.Implies(z3.BoolVal(bool(added)), perm))
+        for e in added:
+            g = z3.And(g, z3.BoolVal(e.args[-1] is layer))
+    yield ('advertised_only_with_its_tile_permission', g,
+           "a layer is advertised only if result['layers'][layer.name]['tile'] is set for THAT layer (default: not permitted)")
+
+
+for _key, _svc in (('mapproxy.service.tile:TileServer.authorized_tile_layers', 'tms'), ('mapproxy.service.wmts:WMTSServer.authorized_tile_layers', 'wmts')):
+    contract(_key, props=['C10'],
+             types=dict(env='opaque'), returns='opaque', default_callee='opaque', raises={'RequestError': True},
+             opaque_fields={'name': 'opaque'}, stable_fields=['name'],
+             opaque_spec={'get': {'pure': True}, 'values': {'returns': 'list[opaque]', 'pure': True}, 'odict': {'pure': True},
+                          'list': {'pure': True}, 'contains': {'returns': 'bool', 'pure': True}},
+             loops={0: dict(inv=[], types={'allowed_layers': 'opaque' if _svc == 'tms' else 'list[opaque]'}, body_trace=[_tile_caps_layer])},
+             trace=[_tile_caps_decision(_svc)])
+
+
+def _sameval(a, b):
+    if a is b:
+        return True
+    if hasattr(a, 'isnone') and hasattr(b, 'isnone'):
+        return a.isnone.eq(b.isnone) and _sameval(a.val, b.val)
+    if hasattr(a, 'isnone'):
+        return _sameval(a.val, b)
+    if hasattr(b, 'isnone'):
+        return _sameval(a, b.val)
+    return hasattr(a, 't') and hasattr(b, 't') and a.t.eq(b.t)
+
+
+def _tms_layer_lookup(ex, st, post, result):
+    import z3
+    from pyvc.values import VSeq
+    il = [e for i, e in T.evs(st, '_internal_layer', '_internal_dimension_layer')]
+    au = [e for i, e in T.evs(st, 'authorize_tile_layer')]
+    ok = len(il) == 1 and len(au) == 1 and st.trace.index(il[0]) < st.trace.index(au[0]) and isinstance(result, VSeq) and result.concrete \
+        and len(result.items) == 2
+    g = z3.BoolVal(bool(ok))
+    if ok:
+        lyr = il[0].result.val if hasattr(il[0].result, 'isnone') else il[0].result
+        a = [x for x in au[0].args if getattr(x, 'ref', None) != post.env['self'].ref]
+        g = z3.And(g, z3.BoolVal(len(a) == 2 and _sameval(a[0], lyr) and a[1] is post.env['tile_request']
+                                 and _sameval(result.items[0], lyr) and _sameval(result.items[1], au[0].result)))
+        if hasattr(il[0].result, 'isnone'):
+            g = z3.And(g, z3.Not(il[0].result.isnone))
+        h = st.heap[post.env['self'].ref]
+        g = z3.And(g, ex.truth(st, h['use_dimension_layers']) == z3.BoolVal(il[0].name.endswith('_internal_dimension_layer')))
+    yield ('known_layer_authorized_for_this_request', g,
+           'the layer of the request is looked up (by dimension key iff use_dimension_layers), an unknown layer is refused, and the '
+           'answer is (that layer, the limit the authorization returned for that layer and this very request)')
+
+
+contract('mapproxy.service.tile:TileServer.layer', props=['C10', 'C16'],
+         types=dict(tile_request='opaque'), returns='tuple[opaque,opt[opaque]]', default_callee='opaque', raises={'RequestError': True},
+         opaque_spec={'_internal_layer': {'returns': 'opt[opaque]', 'pure': True}, '_internal_dimension_layer': {'returns': 'opt[opaque]', 'pure': True},
+                      'authorize_tile_layer': {'raises': ['RequestError'], 'returns': 'opt[opaque]'}},
+         opaque=['_internal_layer', '_internal_dimension_layer', 'authorize_tile_layer'],
+         trace=[_tms_layer_lookup])
